@@ -53,6 +53,7 @@ def check(prog, run):
     for name in FUNCS:
         domain(prog, run, prog.func("functions.gen." + name))
     mac_shape(prog, run, prog.func("functions.gen.MAC"))
+    mpd_vector(prog, run, prog.func("functions.gen.MPD"))
 
 
 def _contains_componentwise_abs(prog, fi, e, params):
@@ -132,6 +133,41 @@ def domain(prog, run, fi):
                        f"`{astq.src(n, 70)}`" + ("" if guarded else ": 0/0 = NaN when a component is zero"), witness="unguarded", file=f, node=n)
     if n_inst == 0:
         run.ob("R-domain", fi.qual, "restricted-domain operations", True, "none in this function", file=f, node=fi.node)
+
+
+def mpd_vector(prog, run, fi):
+    """the elements of the right-singular-vector matrix used by MPD belong to ONE singular vector (components 0 and 1 of it)"""
+    run.rule("R-mpd-vector", "MPD combines the two components of ONE right singular vector of [Re phi, Im phi]", 1)
+    f = rel(prog.mods[fi.mod].path)
+    reads = []
+    for n in ast.walk(fi.node):
+        if isinstance(n, ast.Subscript) and len(astq.index_elts(n)) == 2 and all(isinstance(e, ast.Constant) and isinstance(e.value, int) for e in astq.index_elts(n)):
+            base = astq.expr_at(fi, n, n.value)
+            transposed = False
+            while isinstance(base, ast.Attribute) and base.attr == "T":
+                transposed = not transposed
+                base = base.value
+            if isinstance(base, ast.Subscript) and isinstance(base.slice, ast.Constant) and isinstance(base.value, ast.Call) \
+                    and astq.callee_name(prog, fi, base.value) in ("numpy.linalg.svd", "scipy.linalg.svd"):
+                part = base.slice.value
+                a, b = [e.value for e in astq.index_elts(n)]
+                if part == 2:
+                    vec, comp = (b, a) if transposed else (a, b)   # rows of V^H are the vectors
+                elif part == 0:
+                    vec, comp = (a, b) if transposed else (b, a)   # columns of U are the vectors
+                else:
+                    continue
+                reads.append((n, part, vec, comp))
+    if not reads:
+        run.ob("R-mpd-vector", fi.qual, "singular-vector elements", None, "no constant-index read of an svd factor found in MPD", file=f)
+        return
+    vecs = {v for _, _, v, _ in reads}
+    comps = {c for _, _, _, c in reads}
+    parts = {p for _, p, _, _ in reads}
+    ok = len(vecs) == 1 and comps == {0, 1} and parts == {2}
+    run.ob("R-mpd-vector", fi.qual, "all elements read belong to one right singular vector, both components used", ok,
+           "reads (vector, component): " + ", ".join(f"`{astq.src(n)}`->({v},{c})" for n, _, v, c in reads) + ("" if ok else " - components of DIFFERENT singular vectors are combined"),
+           witness=str(sorted((v, c) for _, _, v, c in reads)), file=f, node=reads[0][0])
 
 
 def _under_where_guard(prog, fi, node, den):
